@@ -703,6 +703,8 @@ func runC03(c *Ctx) {
 		c.verdict(len(odd) == 0 && raises >= 1 && okInit, construct, c.at(cmpLoop.test), "bound raised on len(list) > bound, from 0", "the comparison bound is not the maximum of the list lengths ("+join(odd)+fmt.Sprintf("; %d raising edge(s), starts at 0: %v): lists are compared only along a shorter one", raises, okInit), c.at(cmpLoop.test))
 	})
 
+	c.rule("C03.V5", everyPositionComparedDoc, func() { c.everyPositionCompared() })
+
 	c.rule("C03.W1", "only the tabled functions write or roll back the filter-header store", func() {
 		c.whoMay("FilterHeaderStore.{WriteHeaders,RollbackLastBlock}", callTo(fhs("WriteHeaders"), fhs("RollbackLastBlock")), []string{
 			fnWriteCFH, fnRollBack,
@@ -837,3 +839,66 @@ func (c *Ctx) checkpointCmps(fn *ssa.Function) (prev, fold guard) {
 	fold = equalIs("folded header chain vs *nextCheckpoint", find(fn, binops(eqOps, isFold, any)), true)
 	return
 }
+
+const everyPositionComparedDoc = "peers' answers are compared at every position that may be written: in getUncheckpointedCFHeaders and resolveConflict the loop calling checkForCFHeaderMismatch counts from 0 while below the number of filter hashes every kept answer has (the count getCFHeadersForAllPeers returned together with the answers, not a height read at another moment), and hands its counter to the comparison; a position left out is written as the longest-answer peer served it, unchallenged; the loop is left early only towards a failure return (a liar at a later position is still found, banned and dropped)"
+
+// everyPositionCompared: see everyPositionComparedDoc (C03.V5, also C13.V1).
+func (c *Ctx) everyPositionCompared() {
+		cfm := c.funcObj("neutrino", "checkForCFHeaderMismatch")
+		getAll := c.method("neutrino", "blockManager", "getCFHeadersForAllPeers")
+		for _, name := range []string{fnUncheckCFH, fnResolve} {
+			fn := c.fn(name)
+			construct := c.nm(fn) + " | the mismatch loop covers positions 0 .. numHeaders-1 of the answers"
+			calls := find(fn, callTo(cfm))
+			if len(calls) != 1 {
+				c.fail(construct, c.P.Pos(fn.Pos()), fmt.Sprintf("%d calls of checkForCFHeaderMismatch, 1 tabled", len(calls)))
+				continue
+			}
+			call := calls[0]
+			h := ir.LoopHeaderOf(call.Block())
+			if h == nil {
+				c.fail(construct, c.at(call), "checkForCFHeaderMismatch is not called in a loop")
+				continue
+			}
+			lf := loopFormOf(h)
+			if lf.problem != "" {
+				c.fail(construct, c.at(call), lf.problem)
+				continue
+			}
+			var bad []string
+			a := argsOf(call)
+			// the answers and their count come from one getCFHeadersForAllPeers call
+			var src ssa.Value
+			if ex, ok := ir.Strip(a[0]).(*ssa.Extract); ok && ex.Index == 0 && valIsCallTo(getAll)(ex.Tuple) {
+				src = ex.Tuple
+			} else {
+				bad = append(bad, "the compared answers are not the map getCFHeadersForAllPeers returned")
+			}
+			if ex, ok := ir.Strip(lf.bound).(*ssa.Extract); !ok || ex.Index != 1 || ex.Tuple != src {
+				bad = append(bad, "the loop bound at "+c.at(lf.test)+" is not the count returned with the answers")
+			}
+			if k, isC := lf.firstConst(); !isC || k != 0 || lf.step != 1 || lf.op != token.LSS {
+				bad = append(bad, "the loop at "+c.at(lf.test)+" does not count 0, 1, .. while below the bound")
+			}
+			if off, ok := counterOffset(lf, a[1]); !ok || off != 0 {
+				bad = append(bad, "the position compared is not the loop counter")
+			}
+			for _, e := range ir.LoopExits(h) {
+				if e == lf.exit {
+					continue
+				}
+				ir.WalkEdge(e, nil, func(in ssa.Instruction) bool {
+					if r, ok := in.(*ssa.Return); ok {
+						if errSuccess(r) {
+							bad = append(bad, "the loop is left early at "+c.at(e.From.Instrs[len(e.From.Instrs)-1])+" and the function goes on to succeed (return at "+c.at(r)+"): later positions are not compared")
+						}
+						return false
+					}
+					return true
+				})
+			}
+			sort.Strings(bad)
+			bad = uniq(bad)
+			c.verdict(len(bad) == 0, construct, c.at(call), "for i := 0; i < numHeaders; i++ { checkForCFHeaderMismatch(headers, i) .. } with headers, numHeaders from one getCFHeadersForAllPeers call", join(bad), c.at(lf.test))
+		}
+	}
